@@ -33,7 +33,17 @@ impl Interner {
                 self.rqs.push(r.clone());
                 self.rqs.len() as i64
             }
-            Art::Src(s) | Art::Json(s) | Art::Out(s) => {
+            Art::Json(s) => {
+                // a JSON document is identified up to the order of object members (serde_json::Value keeps them sorted)
+                let canon = serde_json::from_str::<J>(s).map(|v| v.to_string()).unwrap_or_else(|_| s.clone());
+                let key = (node.to_string(), canon);
+                if let Some(i) = self.strs.iter().position(|x| *x == key) {
+                    return i as i64 + 1;
+                }
+                self.strs.push(key);
+                self.strs.len() as i64
+            }
+            Art::Src(s) | Art::Out(s) => {
                 let key = (node.to_string(), s.clone());
                 if let Some(i) = self.strs.iter().position(|x| *x == key) {
                     return i as i64 + 1;
